@@ -493,18 +493,17 @@ theorem RInv.execStep {s : Sys} (h : RInv s) (i : Wid) (fuel : Nat) (ordQ : List
     split
     · exact h.setWk_same i hs1
     · rename_i x hx
-      simp only [] at hx
       obtain ⟨x0, hx0, hreg0⟩ := hs1.regs cur x hx
       have hxr : ∀ q ∈ x.regs, Routed s.env.router q := fun q hq => h.regs i cur x0 hx0 q (hreg0 ▸ hq)
       have hcur : s.env.router cur = some i := h.placed i cur (by unfold known; simp [hx0])
       split
-      · exact h.setWk_same i (hs1.trans (SameProcs.finish hx rfl ordQ))
+      · exact h.setWk_same i (hs1.trans (SameProcs.finish (w := { w0 with queue := rest }) hx rfl ordQ))
       · have hsl := slice_ok h.progwf h.zero s.now cur fuel x hxr
         generalize slice s.prog s.now cur fuel x = r at hsl
         obtain ⟨x', out⟩ := r
         simp only [] at hsl ⊢
         have hs2 : SameProcs (s.wk i) { w0 with queue := rest, procs := upd w0.procs cur (some x') } :=
-          hs1.trans (SameProcs.updProc hx hsl.1 rfl rfl)
+          hs1.trans (SameProcs.updProc (w := { w0 with queue := rest }) hx hsl.1 rfl rfl)
         have hx2 : ({ w0 with queue := rest, procs := upd w0.procs cur (some x') } : WorkerSt).procs cur = some x' := by simp
         cases out with
         | cont => exact h.setWk_same i (hs2.trans (SameProcs.of_eq rfl rfl))
@@ -519,7 +518,240 @@ theorem RInv.execStep {s : Sys} (h : RInv s) (i : Wid) (fuel : Nat) (ordQ : List
           have h1 := h.setWk_same i (hs2.trans (SameProcs.of_eq (w' := { w0 with queue := rest, procs := upd w0.procs cur (some x'), selecting := sinsert w0.selecting cur }) rfl rfl))
           exact h1.pushEvt i (.await cur ts) ⟨hcur, hsl.2⟩
         | blocked => exact h.setWk_same i (hs2.trans (SameProcs.of_eq rfl rfl))
-        | failed => exact h.setWk_same i (hs2.trans (SameProcs.finish hx2 rfl ordQ))
-        | done => exact h.setWk_same i (hs2.trans (SameProcs.finish hx2 rfl ordQ))
+        | failed => exact h.setWk_same i (hs2.trans (SameProcs.finish (w := { w0 with queue := rest, procs := upd w0.procs cur (some x') }) hx2 rfl ordQ))
+        | done => exact h.setWk_same i (hs2.trans (SameProcs.finish (w := { w0 with queue := rest, procs := upd w0.procs cur (some x') }) hx2 rfl ordQ))
+
+/-! ### worker commands -/
+
+theorem mem_keys_of_mem {β : Type} {l : List (Nat × β)} {tr : Nat × β} (h : tr ∈ l) : tr.1 ∈ l.map (·.1) :=
+  List.mem_map.mpr ⟨tr, h, rfl⟩
+
+theorem queryTargets_spec (a : Pid) : ∀ (ts : List Pid) (w : WorkerSt),
+    (queryTargets w a ts).1.procs = w.procs ∧
+    (∀ t b, b ∈ (queryTargets w a ts).1.awaitersFor t → b ∈ w.awaitersFor t ∨ b = a) ∧
+    (∀ k, k ∈ (queryTargets w a ts).2.map (·.1) → k ∈ ts)
+  | [], w => by simp [queryTargets]; intro t b h; exact Or.inl h
+  | t :: rest, w => by
+    unfold queryTargets
+    split
+    · have ih := queryTargets_spec a rest w
+      refine ⟨ih.1, ih.2.1, ?_⟩
+      intro k hk
+      rw [keys_ainsert] at hk
+      rcases hk with hk | rfl
+      · exact List.mem_cons_of_mem _ (ih.2.2 k hk)
+      · simp
+    · have ih := queryTargets_spec a rest
+        { w with awaited := sinsert w.awaited t, awaitersFor := upd w.awaitersFor t (w.awaitersFor t ++ [a]) }
+      refine ⟨ih.1, ?_, ?_⟩
+      · intro t' b hb
+        rcases ih.2.1 t' b hb with h1 | h1
+        · simp only [upd_apply] at h1
+          split at h1
+          · rename_i e; subst e; simp at h1; rcases h1 with h1 | h1
+            · exact Or.inl h1
+            · exact Or.inr h1
+          · exact Or.inl h1
+        · exact Or.inr h1
+      · intro k hk
+        rw [keys_ainsert] at hk
+        rcases hk with hk | rfl
+        · exact List.mem_cons_of_mem _ (ih.2.2 k hk)
+        · simp
+
+theorem RInv.handleCmd {s : Sys} (h : RInv s) (emptyWake : WorkerSt → Pid → WorkerSt)
+    (hew : ∀ w p, SameProcs w (emptyWake w p)) (i : Wid) {c : Cmd}
+    (hc : CmdOK s.env.router s.prog.length (known s i) i c) : RInv (handleCmdWith emptyWake s i c) := by
+  cases c with
+  | misc => exact h
+  | start p => exact hc.elim
+  | resume p fn => exact hc.elim
+  | spawn p fn regs =>
+    obtain ⟨hp, hfn, hregs⟩ := hc
+    unfold handleCmdWith
+    simp only []
+    rw [if_neg (by omega)]
+    apply h.setWk i
+    · intro q hq
+      simp only [WorkerSt.setProc, upd_apply]
+      split
+      · simp
+      · exact hq
+    · intro q hq
+      simp only [WorkerSt.setProc, upd_apply] at hq
+      split at hq
+      · rename_i e; subst e; exact hp
+      · exact h.placed i q hq
+    · intro q x hx r hr
+      simp only [WorkerSt.setProc, upd_apply] at hx
+      split at hx
+      · simp at hx; subst hx
+        simp only [Proc.fresh, List.mem_cons] at hr
+        rcases hr with rfl | hr
+        · simp [Routed, hp]
+        · exact hregs r hr
+      · exact h.regs i q x hx r hr
+    · intro t a ha; exact h.awaiters i t a ha
+  | notifySpawn caller newPid =>
+    obtain ⟨_, hnew⟩ := hc
+    unfold handleCmdWith
+    simp only []
+    split
+    · exact { h.setWk_same i (SameProcs.of_eq (w' := { s.wk i with spawning := serase (s.wk i).spawning caller }) rfl rfl) with }
+    · rename_i x hx
+      suffices hh : ∀ q : List Pid, RInv (s.setWk i { s.wk i with spawning := serase (s.wk i).spawning caller, procs := upd (s.wk i).procs caller (some { x with regs := x.regs ++ [newPid], pc := x.pc + 1, spawnIssued := false }), queue := q }) by
+        split
+        · exact { hh _ with }
+        · exact { hh _ with }
+      intro q
+      apply h.setWk i
+      · intro p hp
+        simp only [upd_apply]; split
+        · simp
+        · exact hp
+      · intro p hp
+        simp only [upd_apply] at hp
+        split at hp
+        · rename_i e; subst e; exact h.placed i p (by unfold known; simp [hx])
+        · exact h.placed i p hp
+      · intro p y hy r hr
+        simp only [upd_apply] at hy
+        split at hy
+        · simp at hy; subst hy
+          simp only [List.mem_append, List.mem_singleton] at hr
+          rcases hr with hr | rfl
+          · exact h.regs i caller x hx r hr
+          · exact hnew
+        · exact h.regs i p y hy r hr
+      · intro t a ha; exact h.awaiters i t a ha
+  | deliver t m =>
+    unfold handleCmdWith
+    simp only []
+    split
+    · rename_i x hx
+      exact { h.setWk_same i ((SameProcs.updProc (x' := { x with mailbox := x.mailbox ++ [m] }) hx rfl
+          (w' := { s.wk i with procs := upd (s.wk i).procs t (some { x with mailbox := x.mailbox ++ [m] }) }) rfl rfl).trans
+          (SameProcs.wakeSelecting _ t)) with }
+    · exact { h.setWk_same i (SameProcs.wakeSelecting _ t) with }
+  | queryAwait a ts =>
+    obtain ⟨ha, hts⟩ := hc
+    unfold handleCmdWith
+    have hq := queryTargets_spec a ts (s.wk i)
+    dsimp only
+    generalize queryTargets (s.wk i) a ts = q at hq ⊢
+    have h1 : RInv (s.setWk i q.1) := by
+      apply h.setWk i
+      · intro p hp; rw [hq.1]; exact hp
+      · intro p hp; rw [hq.1] at hp; exact h.placed i p hp
+      · intro p x hx r hr; rw [hq.1] at hx; exact h.regs i p x hx r hr
+      · intro t b hb
+        rcases hq.2.1 t b hb with h2 | rfl
+        · exact h.awaiters i t b h2
+        · exact ha
+    have h2 := h1.pushEvt i (.procResults a q.2) ⟨ha, fun tr htr => hts _ (hq.2.2 _ (mem_keys_of_mem htr))⟩
+    exact { h2 with }
+  | updateAwait a rs =>
+    unfold handleCmdWith
+    simp only []
+    split
+    · exact { h.setWk_same i (SameProcs.applyResults a rs _) with }
+    · exact { h.setWk_same i (hew _ a) with }
+  | getResult req p =>
+    unfold handleCmdWith
+    simp only []
+    have hc' : ((s.wk i).procs p).isSome = true := hc
+    split
+    · rename_i hn; rw [hn] at hc'; exact absurd hc' (by simp)
+    · split
+      · exact h.pushEvt i _ trivial
+      · exact h.setWk_same i (SameProcs.of_eq rfl rfl)
+
+theorem RInv.cmdStep1 {s : Sys} (h : RInv s) (emptyWake : WorkerSt → Pid → WorkerSt)
+    (hew : ∀ w p, SameProcs w (emptyWake w p)) (i : Wid) : RInv (cmdStep1With emptyWake s i) := by
+  unfold cmdStep1With
+  split
+  · exact h
+  · rename_i c rest hq
+    obtain ⟨h1, hc⟩ := h.popCmd hq
+    exact h1.handleCmd emptyWake hew i hc
+
+/-! ### check_completed_processes -/
+
+theorem RInv.reportTarget {s : Sys} (h : RInv s) (i : Wid) (t : Pid) : RInv (reportTarget s i t) := by
+  unfold QM.Sys.reportTarget
+  simp only []
+  split
+  · exact h
+  · rename_i r hr
+    have ht : s.env.router t = some i := by
+      apply h.placed i t
+      unfold known
+      unfold WorkerSt.resultOf at hr
+      split at hr
+      · rename_i x hx; simp [hx]
+      · simp at hr
+    have hfold : ∀ (l : List Pid) (s0 : Sys), RInv s0 → s0.env = s.env → s0.prog = s.prog → s0.wk = s.wk →
+        (∀ a ∈ l, Routed s.env.router a) →
+        let s1 := l.foldl (fun acc a => { acc.pushEvt i (.procResults a [(t, some r)]) with reported := acc.reported ++ [(a, t)] }) s0
+        RInv s1 ∧ s1.wk = s.wk ∧ s1.env = s.env ∧ s1.prog = s.prog := by
+      intro l
+      induction l with
+      | nil => intro s0 h0 he hp hw _; exact ⟨h0, hw, he, hp⟩
+      | cons a l ih =>
+        intro s0 h0 he hp hw hl
+        simp only [List.foldl_cons]
+        apply ih
+        · have := h0.pushEvt i (.procResults a [(t, some r)]) ⟨by rw [he]; exact hl a (by simp), by
+            intro tr htr; simp at htr; subst htr; rw [he]; exact ht⟩
+          exact { this with }
+        · exact he
+        · exact hp
+        · exact hw
+        · intro b hb; exact hl b (by simp [hb])
+    obtain ⟨h1, hw1, hprops⟩ := hfold ((s.wk i).awaitersFor t) s h rfl rfl rfl (fun a ha => h.awaiters i t a ha)
+    generalize List.foldl _ s ((s.wk i).awaitersFor t) = s1 at h1 hw1 hprops
+    have he1 : s1.env = s.env ∧ s1.prog = s.prog := hprops
+    apply h1.setWk i
+    · intro p hp; rw [hw1] at hp; exact hp
+    · intro p hp; rw [he1.1]; exact h.placed i p hp
+    · intro p x hx q hq; rw [he1.1]; exact h.regs i p x hx q hq
+    · intro t' a ha
+      rw [he1.1]
+      simp only [upd_apply] at ha
+      split at ha
+      · simp at ha
+      · exact h.awaiters i t' a ha
+
+theorem RInv.foldPushEvt {α : Type} (i : Wid) (g : α → Evt) : ∀ (l : List α) (s : Sys), RInv s →
+    (∀ a ∈ l, EvtOK s.env.router s.prog.length i (g a)) →
+    RInv (l.foldl (fun acc a => acc.pushEvt i (g a)) s) ∧
+    (l.foldl (fun acc a => acc.pushEvt i (g a)) s).wk = s.wk ∧
+    (l.foldl (fun acc a => acc.pushEvt i (g a)) s).env = s.env ∧
+    (l.foldl (fun acc a => acc.pushEvt i (g a)) s).prog = s.prog
+  | [], s, h, _ => ⟨h, rfl, rfl, rfl⟩
+  | a :: l, s, h, hl => by
+    simp only [List.foldl_cons]
+    have ih := RInv.foldPushEvt i g l (s.pushEvt i (g a)) (h.pushEvt i _ (hl a (by simp)))
+      (fun b hb => by simpa using hl b (by simp [hb]))
+    simpa using ih
+
+theorem RInv.answerRequests {s : Sys} (h : RInv s) (i : Wid) (p : Pid) : RInv (answerRequests s i p) := by
+  unfold QM.Sys.answerRequests
+  dsimp only
+  split
+  · exact h
+  · rename_i r _
+    obtain ⟨h1, hw1, _, _⟩ := RInv.foldPushEvt i (fun req => Evt.resultResp req r) ((s.wk i).resultReqs p) s h
+      (fun _ _ => trivial)
+    generalize List.foldl _ s ((s.wk i).resultReqs p) = s1 at h1 hw1
+    apply h1.setWk_same i
+    rw [hw1]
+    exact SameProcs.of_eq rfl rfl
+
+theorem RInv.checkStep {s : Sys} (h : RInv s) (i : Wid) (ordE : List Pid) : RInv (checkStep s i ordE) := by
+  unfold QM.Sys.checkStep
+  dsimp only
+  apply foldl_invariant RInv _ (fun a p ha => ha.answerRequests i p)
+  exact foldl_invariant RInv _ (fun a t ha => ha.reportTarget i t) _ _ h
 
 end QM.Sys
